@@ -1,4 +1,6 @@
 //! Shared generators (decoders from the choice source).
 
+pub mod classical;
 pub mod expr;
 pub mod ident;
+pub mod rf;
